@@ -215,7 +215,8 @@ def generate(rng, tier):
             pass
         scheme = "https" if rng.random() < 0.2 else "http"
         ops.append({"op": "mk", "kind": "base", "node": len(nodes), "impl": i,
-                    "addr": f"{scheme}://h{i}.test:80{i}0", "form": form, "ids": ids})
+                    "addr": f"{scheme}://h{i}.test:80{i}0" + rng.choice(["", "", "", "/base", "/a/b"]),
+                    "form": form, "ids": ids})
         nodes.append(_GNode("base", False, i, born=len(ops)))
     threaded = rng.random() < 0.33
     nthreads = rng.randint(2, 3) if threaded else 1
